@@ -46,6 +46,12 @@ var c17Spec = &c17Node{kind: c17Container, presence: true, children: []*c17Node{
 		{kind: c17Leaf, name: "x", typ: c17Str},     // choice ch / case ca / leaf x
 		{kind: c17LeafList, name: "m", typ: c17Uint}, // choice ch / case cb / leaf-list m
 		{kind: c17Leaf, name: "y", typ: c17Uint},     // choice ch / case cb / choice inner / case ci / leaf y
+		// non-presence containers that carry defaults (they "always exist", but a path
+		// ending on them is still incomplete)
+		{kind: c17Container, name: "d", children: []*c17Node{
+			{kind: c17Leaf, name: "z", typ: c17Str},
+			{kind: c17Container, name: "f", children: []*c17Node{{kind: c17Leaf, name: "w", typ: c17Str}}},
+		}},
 	}},
 	{kind: c17List, name: "l", children: []*c17Node{
 		{kind: c17Leaf, name: "k", typ: c17Uint},
@@ -73,7 +79,13 @@ func buildC17Schema() Tree {
 		NewLeafList("m", ns, mod, "", "", "", "", "", "", 0, ^uint(0), u, true, Current, nil, nil), innerChoice})
 	ch, _ := NewChoice("ch", ns, mod, "", "", "", "", false, true, Current, nil, []Node{ca, cb})
 	p, _ := NewContainer("p", ns, mod, "", "", "", true, true, Current, nil, nil, []Node{leaf("s", s)})
-	c, _ := NewContainer("c", ns, mod, "", "", "", false, true, Current, nil, nil, []Node{leaf("n", u), p, leaf("e", e), ch})
+	sd := NewString(xml.Name{Local: "string"}, nil, nil, nil, "q", true)
+	dleafDef := func(name string) Node {
+		return NewLeaf(name, ns, mod, "", "", "", "", false, sd, true, Current, nil, nil)
+	}
+	f, _ := NewContainer("f", ns, mod, "", "", "", false, true, Current, nil, nil, []Node{dleafDef("w")})
+	d, _ := NewContainer("d", ns, mod, "", "", "", false, true, Current, nil, nil, []Node{dleafDef("z"), f})
+	c, _ := NewContainer("c", ns, mod, "", "", "", false, true, Current, nil, nil, []Node{leaf("n", u), p, leaf("e", e), ch, d})
 	l, _ := NewList("l", ns, mod, "", "", "", "", 0, ^uint(0), true, Current, []string{"k"}, nil, nil, nil, []Node{leaf("k", u), leaf("v", s)})
 	t, err := NewTree([]Node{c, l})
 	if err != nil {
